@@ -12,15 +12,15 @@ Open Scope Z_scope.
    the encoding is 1 exactly when alphabet[i] = s[q] (ignored letters give all-zero columns)
    and decoding gives s back with ignored letters as N (whenever allow_N is set or s has no
    ignored letter); if some letter is in neither set the call is rejected *)
-Theorem c15_ohe_roundtrip : forall alpha ign s allowN,
-  spec_ok (CRound alpha ign s allowN) (model (CRound alpha ign s allowN)) = true.
+Theorem c15_ohe_roundtrip : forall alpha ign s force allowN,
+  spec_ok (CRound alpha ign s force allowN) (model (CRound alpha ign s force allowN)) = true.
 Proof. exact round_spec. Qed.
 Print Assumptions c15_ohe_roundtrip.
 
 (* characters then one_hot_encode gives back every tensor whose columns are one-hot (or
    all-zero, with allow_N and N ignored) *)
-Theorem c15_ohe_back : forall alpha ign X allowN,
-  spec_ok (CBack alpha ign X allowN) (model (CBack alpha ign X allowN)) = true.
+Theorem c15_ohe_back : forall alpha ign X force allowN,
+  spec_ok (CBack alpha ign X force allowN) (model (CBack alpha ign X force allowN)) = true.
 Proof. exact back_spec. Qed.
 Print Assumptions c15_ohe_back.
 
@@ -65,12 +65,12 @@ Theorem c15_unchunk_chunk_exact : forall size overlap xs,
 Proof. exact chunk_unchunk_exact. Qed.
 Print Assumptions c15_unchunk_chunk_exact.
 
-Theorem c15_ohe_roundtrip_exact : forall alpha ign s,
+Theorem c15_ohe_roundtrip_exact : forall alpha ign s force,
   alpha_scope alpha ign = true -> forallb is_ascii s = true ->
   forallb (fun ch => mem ch alpha || mem ch ign) s = true ->
   exists X, one_hot_encode alpha ign s = Ok X /\
-            characters alpha true X = Ok (map (fun c => if mem c ign then charN else c) s) /\
-            (existsb (fun ch => mem ch ign) s = false -> characters alpha false X = Ok s).
+            characters alpha force true X = Ok (map (fun c => if mem c ign then charN else c) s) /\
+            (existsb (fun ch => mem ch ign) s = false -> characters alpha force false X = Ok s).
 Proof. exact ohe_roundtrip_exact. Qed.
 Print Assumptions c15_ohe_roundtrip_exact.
 
@@ -98,7 +98,7 @@ Print Assumptions c15_rc_tensor_exact.
 Example c15_scopes_inhabited :
   let dna4 := [(65, 84); (67, 71); (71, 67); (84, 65)] in
   alpha_scope [65; 67; 71; 84] [78] = true /\ cmap_scope dna4 = true /\
-  model (CRound [65; 67; 71; 84] [78] [71; 78; 65] true)
+  model (CRound [65; 67; 71; 84] [78] [71; 78; 65] false true)
     = [Ok (VTen [[0; 0; 1; 0]; [0; 0; 0; 0]; [1; 0; 0; 0]]); Ok (VStr [71; 78; 65])] /\
   model (CRcStr dna4 true [65; 67; 78]) = [Ok (VStr [78; 71; 84]); Ok (VStr [65; 67; 78])] /\
   model (CChunk 5 3 [[[0]; [1]; [2]; [3]; [4]; [5]; [6]; [7]; [8]; [9]]])
@@ -116,4 +116,4 @@ Proof. exists (CChunk 3 1 [[[1]; [2]; [3]]]). vm_compute. reflexivity. Qed.
 
 (* before d995238: the empty string could be encoded but not decoded (max() over no positions) *)
 Lemma c15_characters_empty_v0_refuted : exists c, spec_ok c (model_v0_chars c) = false.
-Proof. exists (CRound [65] [78] [] false). vm_compute. reflexivity. Qed.
+Proof. exists (CRound [65] [78] [] false false). vm_compute. reflexivity. Qed.
